@@ -1,0 +1,16 @@
+// +build verif
+
+package event
+
+// VerifAsyncPostHook, when set by the verification harness (/verif), receives
+// every AsyncPost synchronously in call order; returning true means the event
+// was consumed and no goroutine is spawned.  nil (the default) keeps the
+// normal behaviour.
+var VerifAsyncPostHook func(mux *TypeMux, ev interface{}) bool
+
+func verifAsyncPost(mux *TypeMux, ev interface{}) bool {
+	if h := VerifAsyncPostHook; h != nil {
+		return h(mux, ev)
+	}
+	return false
+}
